@@ -27,7 +27,10 @@ RULE = {"C16": (
     "1-3 simulated caller threads with 1-4 queries each over a pool of 4-7 different contractions containing equal-size "
     "pairs on both sides of the optimal/hyper hardness cut-off; real threads are serialised by a baton and pre-empted at "
     "line events of the optimizer / interface code according to a seeded random-walk or PCT(d<=3) schedule; a later thread "
-    "may be handed the ident of one that exited. Every answer is checked against the query that issued it. "
+    "may be handed the ident of one that exited. Swarm toggles per run: the shared optimizer farms its trials out to a thread "
+    "pool whose tasks are further simulated threads; all threads ask about the same one or two contractions; callers keep one "
+    "set of argument containers edited in place; one store into a directory cache fails with ENOSPC (that query may fail). "
+    "Every answer is checked against the query that issued it; a run that only polls is a livelock. "
     "distinct_nontrivial counts distinct (optimizer kind, context-switch signature = sequence of (from, to, function)) "
     "among runs with at least one context switch or at least two queries."
 )}
@@ -35,10 +38,12 @@ COMPONENTS = {
     "real": ["real threading.Thread callers", "cotengra.presets (AutoOptimizer, AutoHQOptimizer, registered presets)",
              "cotengra.reusable.ReusableOptimizer + ReusableHyperOptimizer / ReusableRandomGreedyOptimizer",
              "cotengra.hyperoptimizers.hyper.HyperOptimizer (tiny seeded searches)", "cotengra.interface dispatch and caches",
-             "cotengra.utils.DiskDict on a real scratch directory"],
+             "cotengra.utils.DiskDict on a scratch directory behind the interposed file-system layer (one injected ENOSPC)"],
     "stub": ["OS scheduler -> baton + sys.settrace line events in whitelisted cotengra functions, chooser seeded (random walk / PCT / replay)",
              "threading.get_ident as seen by cotengra.presets / reusable / utils -> simulator-assigned idents (ident reuse after exit)",
-             "time.time -> virtual clock with a tick per read"],
+             "time.time -> virtual clock with a tick per read",
+             "thread pool given to the shared optimizer -> sim.threads.PreemptivePool (tasks = simulated threads of the same scheduler)",
+             "threading.Lock / RLock created by cotengra -> simulated locks (contention yields the baton)"],
 }
 ASSUMPTIONS = {"C16": [
     "pre-emption is at line granularity inside the whitelisted optimizer / interface functions; pathfinder internals and C extensions run atomically (they share no state between queries)",
@@ -49,7 +54,7 @@ ASSUMPTIONS = {"C16": [
 EXPECTED_PROBES = {"C16": ["probe:context_switch", "probe:ident_reused", "probe:hyper_branch", "probe:optimal_branch",
                            "kind:preset:auto", "kind:auto-nocache", "kind:auto-cache", "kind:reusable-hyper", "kind:reusable-rgreedy",
                            "sampler:pct", "sampler:walk", "probe:same_size_pair_queried", "probe:switch_inside_reusable_search", "probe:twin_queried",
-                           "probe:contract_through_interface_caches", "probe:nested_reentrant_query", "probe:shared_mutable_args", "disk_error_injected"]}
+                           "probe:contract_through_interface_caches", "probe:nested_reentrant_query", "probe:shared_mutable_args", "disk_error_injected", "probe:trials_in_thread_pool"]}
 
 
 def violation_class(v):
@@ -126,11 +131,32 @@ def _nested_trial(inputs, output, size_dict, **kw):
         return ctg.ContractionTree.from_path(inputs, output, size_dict, ssa_path=ssa, autocomplete=True, optimize="greedy")
 
 
+_ARMED = set()  # contractions (as hashable keys) whose trials the simulator currently makes fail
+_ARMED_FIRED = [0]
+
+
+def _ckey(inputs, output):
+    return (tuple(tuple(t) for t in inputs), tuple(output))
+
+
+def _failing_trial(inputs, output, size_dict, **kw):
+    """greedy, unless the simulator has armed a fault for this contraction: then the trial raises."""
+    if _ckey(inputs, output) in _ARMED:
+        _ARMED_FIRED[0] += 1
+        raise RuntimeError("injected trial failure")
+    from cotengra.pathfinders.path_greedy import trial_greedy
+
+    return trial_greedy(inputs, output, size_dict, **kw)
+
+
 def _register_nested():
     from cotengra.hyperoptimizers import hyper as H
 
     if "sim-nested" not in H._PATH_FNS:
         H.register_hyper_function("sim-nested", _nested_trial, {})
+    if "sim-c16-greedy" not in H._PATH_FNS:
+        H.register_hyper_function("sim-c16-greedy", _failing_trial, dict(H._HYPER_SEARCH_SPACE["greedy"]),
+                                  dict(H._HYPER_CONSTANTS["greedy"]))
 
 
 # ---------------------------------------------------------------------------
@@ -234,6 +260,18 @@ def gen_case(prop, seed, tier):
            "pool_workers": None if kind.startswith("preset:") else sw.choice([None, None, 2, 3])}
     sched = {"sampler": sw.choice(["walk", "walk", "pct"]), "p": sw.choice([0.02, 0.05, 0.1, 0.3, 0.6]),
              "depth": sw.randint(1, 3), "seed": sw.randrange(2 ** 31), "est_steps": sw.choice([100, 400, 1500]), "choices": None}
+    # fault: every trial of one query's search fails (that query may fail; whatever is answered must be right)
+    if kind in ("reusable-hyper", "auto-cache", "auto-nocache", "autohq-cache", "autohq-nocache") and sw.random() < 0.25:
+        cfg["methods"] = ["sim-c16-greedy"]
+        for th in threads:
+            for qq in th["queries"]:
+                if sw.random() < 0.3:
+                    qq["fail_trials"] = True
+    # the caller switches the shared Reusable* object to cache_only part way through (a public attribute)
+    # (not with re-entrant trials: a nested query refused by cache_only makes its outer trial, hence the outer query, fail)
+    if kind.startswith("reusable") and "sim-nested" not in cfg["methods"] and sw.random() < 0.15:
+        th = sw.choice(threads)
+        sw.choice(th["queries"])["flip_cache_only"] = True
     if cfg["pool_workers"]:
         sched["sampler"] = "walk"
         if "sim-nested" in cfg["methods"]:
@@ -339,6 +377,10 @@ def run_case(prop, case):
     answers = []  # (thread, k, q index, via, answer or exception)
     cur_query = {}
     fault_hit = set()  # (thread, query) during which the injected disk error fired
+    faulted_q = set()  # contractions for which some query had all its trials fail
+    flipped = [False]
+    _ARMED.clear()
+    fired0 = _ARMED_FIRED[0]
     log.add("case", case["seed"], cfg, [(q["inputs"], q["output"]) for q in pool], case["threads"])
     nq = 0
     try:
@@ -380,6 +422,15 @@ def run_case(prop, case):
                             live_sz.clear()
                             live_sz.update(q["size_dict"])
                             inputs, output, size_dict = live_in, live_out, live_sz
+                        armed_key = None
+                        if qq.get("fail_trials"):
+                            armed_key = _ckey(q["inputs"], q["output"])
+                            _ARMED.add(armed_key)
+                            faulted_q.add(armed_key)
+                        if qq.get("flip_cache_only") and not isinstance(shared, str):
+                            shared.cache_only = True
+                            flipped[0] = True
+                            counters["probe:cache_only_switched_on"] += 1
                         try:
                             if qq["via"] == "contract" and (not isinstance(shared, str) or netgen.index_space(size_dict) > 2 ** 14):
                                 qq = dict(qq, via="search")
@@ -408,6 +459,9 @@ def run_case(prop, case):
                             raise
                         except Exception as e:
                             ans = e
+                        finally:
+                            if armed_key is not None:
+                                _ARMED.discard(armed_key)
                         via_eff = qq["via"] if not (isinstance(ans, tuple) and len(ans) == 3 and ans[0] == "value") else "contract"
                         verdict = None
                         if via_eff != "contract" and not isinstance(ans, BaseException):
@@ -440,6 +494,13 @@ def run_case(prop, case):
             counters["probe:optimal_branch"] += 1
         else:
             counters["probe:hyper_branch"] += 1
+        if isinstance(ans, Exception) and _ckey(q["inputs"], q["output"]) in faulted_q and _ARMED_FIRED[0] > fired0 and not isinstance(ans, simthreads.SimDeadlock):
+            # all trials of a search for this contraction were made to fail: the query (or one overlapping it) may fail
+            faults["trial_fault_surfaced"] += 1
+            continue
+        if isinstance(ans, KeyError) and flipped[0] and "missing from cache" in str(ans):
+            counters["probe:cache_only_refusal"] += 1
+            continue
         if isinstance(ans, Exception) and (ti, k) in fault_hit:
             # the query during which the disk error fired may fail in whatever way the error surfaces (e.g. all its
             # trials lost, KeyError 'tree'); everything after it must be right again
@@ -508,6 +569,9 @@ def run_case(prop, case):
         faults["schedule:context_switches"] += sched.switches
     if any(f in ("search", "_maybe_run_optimizer", "_run_optimizer", "last_opt") for (_, _, f) in sched.sig):
         counters["probe:switch_inside_reusable_search"] += 1
+    if _ARMED_FIRED[0] > fired0:
+        faults["all_trials_of_a_query_failed"] += 1
+    _ARMED.clear()
     if "fsim" in dir() and fsim.errors_fired:
         faults["disk_error_injected"] += fsim.errors_fired
     if case.get("args_mode") == "shared-mutable":
